@@ -56,7 +56,7 @@ class Receiver:
 
     def fresh(self):
         if self.clone:
-            return copy.copy(self.proto)
+            return T.snapshot(self.proto)
         if not self.used_proto:
             self.used_proto = True
             return self.proto
